@@ -9,7 +9,7 @@
 EXTENDS KafkaCodec
 
 ExpandRuns(runs) ==
-  FlattenSeq([i \in 1..Len(runs) |-> [j \in 1..runs[i][2] |-> runs[i][1]]])
+  Flatten([i \in 1..Len(runs) |-> [j \in 1..runs[i][2] |-> runs[i][1]]])
 
 \* a byte string at the boundary: [raw |-> <<bytes>>] or, when it has few long runs,
 \* [rle |-> <<<<byte, count>>, ...>>]
